@@ -22,7 +22,7 @@ def deci(xs: List[int], frac_rng: Optional[random.Random] = None) -> List[int]:
 
 def make_input(rng: random.Random, n_refs: int = 2, n_qry: int = 8, ref_labels=(80, 200), kinds=None,
                decimals: bool = True, repeats: bool = False, lattice: int = 0, small_ids: bool = False,
-               twins: bool = False, short_contigs: int = 0, labelless: bool = False) -> Dict:
+               twins: bool = False, short_contigs: int = 0, labelless: bool = False, extra_refs: int = 0) -> Dict:
     """small_ids: references 1..n and queries 1..m (query ids collide with reference ids)
     twins: some maps get a coincident label (two SiteIDs with the same Position: legal CMAP, e.g. two sites closer than
     the 0.1 bp resolution of the file)"""
@@ -203,6 +203,12 @@ def make_input(rng: random.Random, n_refs: int = 2, n_qry: int = 8, ref_labels=(
         qrys.append({"id": qid, "len": dq[-1] + rng.choice([1, 10]), "x": dq, "kind": "shortcontig", "ref": rid,
                      "mirrored": k % 2 == 0})
         qid += 1 if small_ids else rng.randint(1, 9)
+    for _ in range(extra_refs):
+        # many more (small) reference maps: a query is correlated with every reference on both strands
+        xs = gen.make_reference(rng, rng.randint(30, 50), min_gap=2500, mean_gap=9000, lattice=lattice)
+        dx = deci(xs, rng if decimals else None)
+        refs.append({"id": max(r["id"] for r in refs) + rng.randint(1, 3), "len": dx[-1] + rng.randint(10, 30000), "x": dx,
+                     "bp": xs})
     if labelless:
         # maps without any label (only the end-marker row, NumSites 0): valid CMAP; one reference with the smallest id
         # (all other references follow it), one in the middle of the queries
